@@ -2,6 +2,7 @@ package interpreter
 
 import (
 	"fmt"
+	"slices"
 	"strings"
 
 	"github.com/ysugimoto/falco/v2/ast"
@@ -11,6 +12,11 @@ import (
 )
 
 func (i *Interpreter) resolveIncludeStatement(statements []ast.Statement, isRoot bool) ([]ast.Statement, error) {
+	return i.resolveIncludeChain(statements, isRoot, nil)
+}
+
+// chain holds module names that are being included now, to detect a module which includes itself
+func (i *Interpreter) resolveIncludeChain(statements []ast.Statement, isRoot bool, chain []string) ([]ast.Statement, error) {
 	var resolved []ast.Statement
 	for _, stmt := range statements {
 		if include, ok := stmt.(*ast.IncludeStatement); ok {
@@ -22,11 +28,18 @@ func (i *Interpreter) resolveIncludeStatement(statements []ast.Statement, isRoot
 				}
 				continue
 			}
+			if slices.Contains(chain, include.Module.Value) {
+				return nil, exception.Runtime(
+					&stmt.GetMeta().Token,
+					"include cycle detected: %s -> %s",
+					strings.Join(chain, " -> "), include.Module.Value,
+				)
+			}
 			included, err := i.includeFile(include, isRoot)
 			if err != nil {
 				return nil, exception.Runtime(&stmt.GetMeta().Token, "%s", err.Error())
 			}
-			recursive, err := i.resolveIncludeStatement(included, isRoot)
+			recursive, err := i.resolveIncludeChain(included, isRoot, append(chain, include.Module.Value))
 			if err != nil {
 				return nil, err
 			}
